@@ -528,8 +528,6 @@ func runTiming(in sx.Tree) sx.Tree {
 		return sx.T(sx.L(1), sx.L(-1), sx.L(-1), sx.L(-1), sx.L(0), sx.L(0), sx.L(0), sx.L(0))
 	}
 	k := kafkaconsumer.NewKafkaConsumerV(fake.NewConsumer(), topicName, out, 0, rc, ctx)
-	limit, burst := rc.LimiterParamsV()
-	every := rc.UpdateEveryV()
 	// optional 7th field: partition 1's request is short (to = short): it completes while partition 0 is still being
 	// recovered and the bucket is empty - the set of partitions under recovery changes, the limit must not
 	short := int64(0)
@@ -547,6 +545,9 @@ func runTiming(in sx.Tree) sx.Tree {
 	}
 	rc.SetAssignedPartitions(tps(ps))
 	_ = rc.RefreshAssignments()
+	// read once recovery is under way (whenever the implementation chooses to build its limiter)
+	limit, burst := rc.LimiterParamsV()
+	every := rc.UpdateEveryV()
 	mainEvery := int64(0)
 	if nmain > 0 && n > 100 {
 		mainEvery = (n - 100) / (nmain + 1)
